@@ -97,13 +97,17 @@ var fixNodes = map[string]*gomavlib.Node{}
 
 // fix <dialect> <outkey> <frame>: Node.FixFrame on a node configured with the dialect and key.
 func implFix(t []string) string {
-	k := t[1] + "/" + t[2]
+	nodeVer := gomavlib.V2
+	if len(t) > 4 && t[4] == "1" && t[2] == "-" {
+		nodeVer = gomavlib.V1
+	}
+	k := t[1] + "/" + t[2] + "/" + fmt.Sprint(nodeVer)
 	n, ok := fixNodes[k]
 	if !ok {
 		n = &gomavlib.Node{
 			Endpoints:        []gomavlib.EndpointConf{gomavlib.EndpointCustom{ReadWriteCloser: &nopRWC{ch: make(chan struct{})}}},
 			Dialect:          getDialect(t[1]),
-			OutVersion:       gomavlib.V2,
+			OutVersion:       nodeVer,
 			OutSystemID:      1,
 			OutKey:           keyOf(t[2]),
 			HeartbeatDisable: true,
@@ -123,7 +127,27 @@ func implFix(t []string) string {
 		}
 		return "err:other"
 	}
-	return "ok:" + encFrame(fr)
+	// next hop: write the fixed frame, read it back with the same dialect and the key as incoming key
+	w := &recWriter{failAt: -1}
+	fw := &frame.Writer{ByteWriter: w, DialectRW: getDialectRW(t[1])}
+	fw.Initialize() //nolint
+	if err := fw.Write(fr); err != nil {
+		return "ok:" + encFrame(fr) + "|W" + werrKind(err)
+	}
+	var all []byte
+	for _, c := range w.calls {
+		all = append(all, c...)
+	}
+	rd := &frame.Reader{ByteReader: bytes.NewReader(all), DialectRW: getDialectRW(t[1]), InKey: keyOf(t[2])}
+	rd.Initialize() //nolint
+	nf, err := rd.Read()
+	next := ""
+	if err != nil {
+		next = "P" + perrKind(err.Error())
+	} else {
+		next = "F" + maskCrc(encFrame(nf), true)
+	}
+	return "ok:" + encFrame(fr) + "|" + next
 }
 
 // C08: routing transparency.
@@ -200,8 +224,14 @@ func genC08(r *rngT, n int, tier string) {
 			sg := frame.V2Signature{1, 2, 3, 4, 5, 6}
 			g.Signature = &sg
 		}
-		execOp(fmt.Sprintf("fix %s %s %s", dn, key, encFrame(g)))
+		execOp(fmt.Sprintf("fix %s %s %s %d", dn, key, encFrame(g), 1+r.Intn(2)))
 		stat("c08-fix")
+		// a v1 frame edited on a node of either version
+		if m.GetID() <= 255 {
+			g1 := &frame.V1Frame{SequenceNumber: r.byte(), SystemID: r.byte(), ComponentID: r.byte(), Checksum: uint16(r.Intn(65536)), Message: randValue(r, m)}
+			execOp(fmt.Sprintf("fix %s - %s %d", dn, encFrame(g1), 1+r.Intn(2)))
+			stat("c08-fix-v1")
+		}
 	}
 }
 
